@@ -9,8 +9,8 @@ PLAN = dict(
     assumptions=TRUSTED + ["On a failed call the reader position is unspecified and not compared"],
     runs=[
         dict(name="exh", run="^(TestExhaustiveHeads|TestExhaustiveRoundTripBoundaries|TestCorpus)$"),
-        dict(name="rt", run="^TestPropRoundTrip$", checks=(3000, 60000), shards=(1, 4)),
-        dict(name="stream", run="^TestPropStream$", checks=(5000, 200000), shards=(1, 8)),
+        dict(name="rt", run="^TestPropRoundTrip$", checks=(3000, 300000), shards=(1, 4)),
+        dict(name="stream", run="^TestPropStream$", checks=(5000, 1000000), shards=(1, 16)),
     ],
     technique="exhaustive enumeration of CBOR heads x content classes + rapid round trips and call histories, differential against an independent RFC 8949 head parser",
     level_text=("Exhaustive over every initial byte x argument pattern class x content length class x Decode method (finite space, enumerated "
